@@ -18,6 +18,17 @@ out = ["<!-- COUNTS-BEGIN -->",
        "| property | theorem files (theorems) | total |", "|---|---|---|"]
 for k in sorted(props):
     out.append(f"| {k} | " + ", ".join(f"`{n}` ({c})" for n, c in props[k]) + f" | {sum(c for _, c in props[k])} |")
+# stages of each check as the last quick run recorded them (evidence/<id>.json)
+import json
+out += ["", "Stages of the quick tier per property (from `evidence/<id>.json` of the last run: stage label, then what the driver counted):", "",
+        "| property | stages (correspondence / oracle pipelines) | obligations | evaluations |", "|---|---|---|---|"]
+for k in sorted(props):
+    ep = os.path.join(ROOT, "evidence", k + ".json")
+    if not os.path.exists(ep):
+        continue
+    e = json.load(open(ep)); c = e.get("coverage", {})
+    st = ", ".join(f"`{x}`" for x in c.get("input_distribution", {}).keys())
+    out.append(f"| {k} | {st} | {c.get('discharged', '')}/{c.get('obligations', '')} | {c.get('evaluations', '')} |")
 out.append("<!-- COUNTS-END -->")
 p = os.path.join(ROOT, "DESIGN.md"); s = open(p).read()
 blk = "\n".join(out)
